@@ -844,7 +844,12 @@ func (vc *VC) binop(op token.Token, a, b Val, rt types.Type) (Val, error) {
 		}
 		return Val{T: rt, L: []string{ite(big, bvLit(w, 0), app("bvlshr", x, cnt))}}, nil
 	}
-	bin := func(o string) (Val, error) { return Val{T: rt, L: []string{app(o, x, y)}}, nil }
+	bin := func(o string) (Val, error) {
+		if o == "bvadd" || o == "bvsub" {
+			return Val{T: rt, L: []string{vc.linNorm(app(o, x, y), w)}}, nil
+		}
+		return Val{T: rt, L: []string{app(o, x, y)}}, nil
+	}
 	cmp := func(s, u string) (Val, error) {
 		if signed {
 			return Val{T: boolT, L: []string{app(s, x, y)}}, nil
